@@ -94,6 +94,7 @@ def handle (st : DState) (j : Json) : D (DState × Json) := do
       let wantSpec := match j.getObjVal? "mergeSpec" with | .ok (.bool b) => b | _ => false
       let specFields : List (String × Json) := if wantSpec then
           [("mergeSpecViolated", Json.bool (Gql.Spec.mergeViolatedB st.schema d)),
+           ("argNamesUnique", Json.bool ((uniqueArgumentNames.runOn st.schema d tr).isEmpty)),
            ("fragmentFree", Json.bool (d.all fun x => match x with
               | .op o => (recursiveSpreads o.sel).isEmpty | .frag f => (recursiveSpreads f.sel).isEmpty))]
         else []
